@@ -291,6 +291,31 @@ DI_BOUNDS = [
     ("DITemplateValueParameter.i64-min", '!DITemplateValueParameter(name: "V", type: !92, value: i64 -9223372036854775808)', ["value: i64 -9223372036854775808"]),
 ]
 
+DI_EXTRA = '!97 = !DIExpression(DW_OP_deref)\n!98 = !DILocalVariable(name: "n", scope: !91)\n!99 = !{!92, !96}\n'
+# fields that take a REFERENCE where the usual spelling is an integer or nothing; references to NON-EMPTY tuples (a tuple that is still a skeleton when the
+# referring node is translated looks empty)
+DI_REFS = [(n, "!0 = " + t + "\n" + FOOT + DI_EXTRA, fr) for n, t, fr in [
+    ("DISubrange.count-ref", '!DISubrange(count: !98, lowerBound: !97, stride: !97)', ["count: !98", "lowerBound: !97", "stride: !97"]),
+    ("DISubrange.upper-ref", '!DISubrange(lowerBound: !98, upperBound: !97, stride: !98)', ["lowerBound: !98", "upperBound: !97", "stride: !98"]),
+    ("DICompositeType.rank-ref", '!DICompositeType(tag: DW_TAG_array_type, baseType: !92, elements: !99, dataLocation: !97, associated: !97, allocated: !97, rank: !97, annotations: !99)',
+     ["elements: !99", "dataLocation: !97", "associated: !97", "allocated: !97", "rank: !97", "annotations: !99"]),
+    ("DICompositeType.rank-int", '!DICompositeType(tag: DW_TAG_array_type, baseType: !92, rank: 3)', ["rank: 3"]),
+    ("DIStringType.refs", '!DIStringType(name: "s", stringLength: !98, stringLengthExpression: !97, stringLocationExpression: !97)', ["stringLength: !98", "stringLengthExpression: !97"]),
+    ("DIMacroFile.nonempty-nodes", '!DIMacroFile(line: 3, file: !90, nodes: !99)', ["nodes: !99", "!99 = !{!92, !96}"]),
+    ("DICompileUnit.nonempty-lists", 'distinct !DICompileUnit(language: DW_LANG_C99, file: !90, enums: !99, retainedTypes: !99, globals: !99, imports: !99, macros: !99)',
+     ["enums: !99", "retainedTypes: !99", "globals: !99", "imports: !99", "macros: !99", "!99 = !{!92, !96}"]),
+    ("DISubprogram.nonempty-lists", 'distinct !DISubprogram(name: "f", templateParams: !99, declaration: !91, retainedNodes: !99, thrownTypes: !99, annotations: !99)',
+     ["templateParams: !99", "declaration: !91", "retainedNodes: !99", "thrownTypes: !99", "annotations: !99"]),
+    ("DISubroutineType.nonempty-types", '!DISubroutineType(types: !99)', ["types: !99"]),
+    ("DIDerivedType.annotations", '!DIDerivedType(tag: DW_TAG_member, name: "m", baseType: !92, annotations: !99)', ["annotations: !99"]),
+    ("DIGlobalVariable.templateParams", 'distinct !DIGlobalVariable(name: "g", templateParams: !99, declaration: !96, annotations: !99)', ["templateParams: !99", "annotations: !99"]),
+    ("DILocalVariable.annotations", '!DILocalVariable(name: "x", scope: !91, annotations: !99)', ["annotations: !99"]),
+    ("DIImportedEntity.elements", '!DIImportedEntity(tag: DW_TAG_imported_module, scope: !91, entity: !92, elements: !99)', ["elements: !99"]),
+    ("GenericDINode.operands", '!GenericDINode(tag: DW_TAG_member, header: "h", operands: {!99, !92})', ["operands: {!99, !92}"]),
+    ("DITemplateValueParameter.md-value", '!DITemplateValueParameter(name: "V", type: !92, value: !99)', ["value: !99"]),
+    ("DIObjCProperty.refs", '!DIObjCProperty(name: "p", file: !90, type: !92)', ["file: !90", "type: !92"]),
+]]
+
 DI = [(n, "!0 = " + t + "\n" + FOOT, fr) for n, t, fr in DI_RAW + DI_BOUNDS] + [
     # the same specialised nodes written INLINE as a tuple operand (not a numbered definition): printed in place, never as `!N`
     (n + ".inline", "!0 = !{" + t + "}\n" + FOOT, fr + ["!{" + t.split("(")[0] + "("]) for n, t, fr in DI_RAW if not t.startswith("distinct ")] + [
@@ -514,5 +539,33 @@ UINT_LITS = [
 ]
 
 
+def order_entries():
+    """the same set of flags written in the OTHER order LLVM accepts; attribute arguments at the ends of their ranges; numbering across entity kinds"""
+    out = []
+    fn = lambda body: "define i32 @f(i32 %%a, i32 %%b) {\n\t%s\n\tret i32 %%r\n}\n" % body
+    for op in ("add", "sub", "mul", "shl"):
+        out.append(("ovf-order.%s" % op, fn("%%r = %s nsw nuw i32 %%a, %%b" % op), ["nsw", "nuw"]))
+        out.append(("ovf-order.expr.%s" % op, "@g = global i32 %s nsw nuw (i32 ptrtoint (i32* @g to i32), i32 1)\n" % op, ["nsw", "nuw"]))
+    for fl in ("nnan ninf", "ninf nnan", "reassoc nsz arcp", "afn contract nsz", "arcp nnan contract"):
+        out.append(("fmf-order.%s" % fl.replace(" ", "-"), "define float @f(float %%a) {\n\t%%r = fadd %s float %%a, %%a\n\tret float %%r\n}\n" % fl, fl.split()))
+    for a, b in ((0, 0), (1, 0), (0, 1), (1, 1), (2, 0)):
+        out.append(("fattr.allocsize-%d-%d" % (a, b), "declare i8* @f(i64 %%0, i64 %%1, i64 %%2) allocsize(%d, %d)\n" % (a, b), ["allocsize(%d, %d)" % (a, b)]))
+        out.append(("fattr.allocsize-group-%d-%d" % (a, b), "declare i8* @f(i64 %%0, i64 %%1, i64 %%2) #0\n\nattributes #0 = { allocsize(%d, %d) }\n" % (a, b), ["allocsize(%d, %d)" % (a, b)]))
+    for k in ("alloc", "realloc", "free", "uninitialized", "zeroed", "aligned", "realloc,zeroed", "realloc,aligned", "free,uninitialized", "realloc,uninitialized,aligned"):
+        out.append(("fattr.allockind-%s" % k.replace(",", "-"), "declare void @f() allockind(\"%s\")\n" % k, ["allockind(\"%s\")" % k]))
+    # parameter lists mixing named, nameless and explicitly numbered parameters
+    out.append(("params.named-then-nameless", "define void @f(i32 %x, i32) {\n\tret void\n}\n", ["i32 %x, i32 %0"]))
+    out.append(("params.named-then-nameless-decl", "declare void @g(i8* %fmt, i32)\n", ["i8* %fmt, i32 %0"]))
+    out.append(("params.named-nameless-explicit", "define i32 @h(i32 %x, i32, i32 %1, i32) {\n\tret i32 %2\n}\n", ["i32 %x, i32 %0, i32 %1, i32 %2", "ret i32 %2"]))
+    out.append(("params.explicit-then-nameless", "define i32 @h(i32 %0, i32 %y, i32) {\n\tret i32 %1\n}\n", ["i32 %0, i32 %y, i32 %1", "ret i32 %1"]))
+    # one counter of unnamed globals across global variables, functions, aliases and ifuncs
+    out.append(("numbering.unnamed-alias-then-global", "@0 = global i32 0\n@1 = alias i32, i32* @0\n@2 = global i32 2\n\ndeclare void @3()\n", ["alias i32, i32* @0", "global i32 2", "declare void"]))
+    out.append(("numbering.unnamed-ifunc-then-func", "@0 = ifunc void (), void ()* ()* @1\n\ndefine void ()* @1() {\n\tret void ()* null\n}\n\ndeclare void @2()\n\n@3 = global i8 1\n", ["ifunc void ()", "global i8 1"]))
+    # a float held at full precision that prints in DECIMAL notation (the reader of decimal literals must keep all 24 / 11 / 53 significand bits)
+    out.append(("float.full-precision-decimal", "@g = global float 0x416FFFFFE0000000\n@h = global float 0x4150000020000000\n", ["float 1.6777215e+07", "float 4.1943045e+06"]))
+    out.append(("double.full-precision-decimal", "@g = global double 9007199254740991.0\n@h = global half 0xH67FF\n", ["double 9.007199254740991e+15", "half 2047.0"]))
+    return out
+
+
 def all_entries(rows):
-    return kw_entries(rows) + STRUCTURED + NAMED_NONSTRUCT + inst_entries() + DI + comdat_entries() + flag_cross_entries() + addrspace_cross_entries() + written_type_entries() + REPEATS + UINT_LITS
+    return kw_entries(rows) + STRUCTURED + NAMED_NONSTRUCT + inst_entries() + DI + comdat_entries() + flag_cross_entries() + addrspace_cross_entries() + written_type_entries() + REPEATS + UINT_LITS + order_entries() + DI_REFS
